@@ -450,10 +450,18 @@ func Drive(o *DriveOpts) int {
 					exit = 2
 					continue
 				}
-				_, cl2, _ := classifyDeath(stderr2)
+				// the isolated re-execution is authoritative for the class
+				or2, cl2, ex2 := classifyDeath(stderr2)
 				if cl2 != cl {
-					fmt.Printf("INFRA: run %d died differently on re-execution: %s vs %s\n", f.run, cl, cl2)
-					exit = 2
+					fmt.Printf("note: run %d died as %s in the batch and as %s when re-executed alone; using the latter\n", f.run, cl, cl2)
+				}
+				v = &Violation{Property: o.Public, Oracle: or2, Class: cl2, Msg: ex2}
+				if seenFatal[v.Key()] && cl2 != cl {
+					continue
+				}
+				seenFatal[v.Key()] = true
+				if k := matchKnownList(known, v); k != nil {
+					knownHits[k.Key]++
 					continue
 				}
 				cands = append(cands, cand{f.run, readTraceFile(tf), v.Key(), v})
